@@ -274,6 +274,223 @@ def gen_mgr(rng):
     return out
 
 
+# ------------------------------------------------------------------------------------ family: mutate
+
+MUT_DIMS = {"u": ("x", "y"), "u2": ("x", "y"), "v": ("x",), "w": ("y", "x"), "h": ("x",)}
+XR_COPIES = ["copy_default", "copy_deep", "copy_shallow", "copy_copy", "copy_deepcopy", "deepcopy_in_container", "pickle",
+             "deep_load", "shallow_load", "deep_persist", "deep_of_shallow", "deepcopy_data", "copycopy_data", "copymethod_data"]
+MUT_COPIES = {
+    "dataarray": XR_COPIES,
+    "dataset": XR_COPIES,
+    "variable": [k for k in XR_COPIES if k != "deep_persist"],
+    "datatree": ["copy_default", "copy_deep", "copy_shallow", "copy_copy", "copy_deepcopy", "deepcopy_in_container", "pickle",
+                 "deep_load", "deep_persist"],
+    "array": ["copy_copy", "copy_deepcopy", "deepcopy_in_container", "pickle", "arr_copy_method"],
+}
+AUG = ["iadd", "isub", "imul", "itruediv", "ipow", "imod"]
+VAR_HOWS = ["setitem_dict", "setitem_pos", "loc_dict", "var_setitem", "data_setitem", "data_mask", "data_out",
+            "data_out_other", "data_assign", "values_assign"] + AUG
+DS_HOWS = ["ds_setitem_dict", "ds_loc", "ds_assign_var", "ds_update", "ds_coord_assign", "ds_new_var", "ds_where_assign"]
+MUT_HOWS = {
+    "dataarray": VAR_HOWS,
+    "dataset": VAR_HOWS + DS_HOWS,
+    "variable": ["setitem_pos", "data_setitem", "data_mask", "data_out", "data_out_other", "data_assign", "values_assign"] + AUG,
+    "datatree": [h for h in VAR_HOWS if h not in AUG] + ["ds_assign_var", "ds_where_assign"],
+    "array": ["data_setitem", "data_mask", "data_out", "data_out_other"] + AUG,
+}
+MUT_READS = ["values", "values", "sum_x", "mean_all", "cumsum_x", "rolling_x", "plus_other"]
+MUT_DERIVES = ["add1", "mul_self", "sum_y", "neg"]
+MUT_OBJS = ["dataarray", "dataset", "variable", "datatree", "array"]
+
+
+def _entry(rng, n, arrays=True):
+    r = rng.random()
+    if r < 0.35:
+        return rng.randint(-n, n - 1)
+    if r < 0.75 or not arrays:
+        a = rng.randint(0, n - 1)
+        b = rng.randint(a + 1, n)
+        st = rng.choice([None, None, None, 2, -1])
+        if st == -1:
+            return {"s": [b - 1, (a - 1) if a > 0 else None, -1]}
+        return {"s": [a if rng.random() < 0.8 else None, b if rng.random() < 0.8 else None, st]}
+    if r < 0.9:
+        return {"l": rng.sample(range(n), rng.randint(1, min(3, n)))}
+    m = [rng.random() < 0.5 for _ in range(n)]
+    m[rng.randrange(n)] = True
+    return {"b": m}
+
+
+def _label(d, e):
+    """a positional entry turned into a label entry (x labels are 0..n-1, y labels 0,10,20..; label slices are inclusive)"""
+    f = 10 if d == "y" else 1
+    if isinstance(e, int):
+        return abs(e) * f
+    if "l" in e:
+        return {"l": [i * f for i in e["l"]]}
+    return e
+
+
+def _mkey(rng, dims, sizes, form):
+    """form: dict (by dim name, a random non-empty subset), pos (a tuple for a prefix of the dims), loc (labels)"""
+    arrays_left = 1                                    # xarray refuses several array indexers on chunked data
+    if form == "pos":
+        k = rng.randint(1, len(dims))
+        out = []
+        for d in dims[:k]:
+            e = _entry(rng, sizes[d], arrays_left > 0)
+            if isinstance(e, dict) and ("l" in e or "b" in e):
+                arrays_left -= 1
+            out.append(e)
+        if rng.random() < 0.15 and len(dims) > 1:
+            out = ["...", _entry(rng, sizes[dims[-1]], True)]
+        return out
+    ds = rng.sample(list(dims), rng.randint(1, len(dims)))
+    out = {}
+    for d in ds:
+        n = sizes[d]
+        if form == "loc":
+            r = rng.random()
+            if r < 0.4:
+                e = rng.randint(0, n - 1)
+            elif r < 0.8 or arrays_left <= 0:
+                a = rng.randint(0, n - 1)
+                e = {"s": [a * (10 if d == "y" else 1), rng.randint(a, n - 1) * (10 if d == "y" else 1), None]}
+                out[d] = e
+                continue
+            else:
+                e = {"l": rng.sample(range(n), rng.randint(1, min(3, n)))}
+                arrays_left -= 1
+            out[d] = _label(d, e)
+        else:
+            e = _entry(rng, n, arrays_left > 0)
+            if isinstance(e, dict) and ("l" in e or "b" in e):
+                arrays_left -= 1
+            out[d] = e
+    return out
+
+
+def _mval(rng, scalar_only=False):
+    r = rng.random()
+    if scalar_only or r < 0.45:
+        return {"kind": "scalar", "v": float(rng.choice([99, -77, 55, 0, 123]))}
+    return {"kind": rng.choice(["array", "dataarray", "lazy"]), "seed": rng.randrange(10**6)}
+
+
+def gen_mut(rng, case, on, how=None):
+    obj, sizes = case["obj"], case["sizes"]
+    how = how or rng.choice(MUT_HOWS[obj])
+    st = {"do": "mut", "on": on, "how": how}
+    if obj == "dataarray":
+        var = "h" if rng.random() < 0.2 else None
+        dims = MUT_DIMS["h"] if var else MUT_DIMS["u"]
+    elif obj == "dataset":
+        var = rng.choice(["u", "u", "v", "w", "h"] + (["u2"] if case.get("alias") else []))
+        dims = MUT_DIMS[var]
+    elif obj == "datatree":
+        if rng.random() < 0.5:
+            st["node"], var = "child", rng.choice(["w"] + (["u2"] if case.get("alias") else []))
+        else:
+            var = rng.choice(["u", "v"])
+        dims = MUT_DIMS[var]
+    else:
+        var, dims = None, MUT_DIMS["u"]
+    if how in DS_HOWS or (how in AUG and obj == "dataset" and rng.random() < 0.35):
+        if how in ("ds_setitem_dict", "ds_loc"):
+            d = "x"                                    # the one dim every variable has
+            st["key"] = _mkey(rng, [d], sizes, "loc" if how == "ds_loc" else "dict")
+            if any(isinstance(e, dict) and "b" in e for e in st["key"].values()):
+                st["key"] = {d: 1}
+            st["val"] = _mval(rng, scalar_only=True)
+        elif how == "ds_coord_assign":
+            st["seed"] = rng.randrange(10**6)
+        elif how in AUG:
+            st["k"] = float(rng.choice([2, 3]))
+        else:
+            st["var"] = var if var != "h" else "u"
+            st["k"] = float(rng.choice([2, 3, -1]))
+            if how == "ds_where_assign":
+                st["thr"] = float(rng.randint(-2, 6))
+        return st
+    if var is not None:
+        st["var"] = var
+    if how in ("setitem_dict", "loc_dict"):
+        st["key"] = _mkey(rng, dims, sizes, "loc" if how == "loc_dict" else "dict")
+        st["val"] = _mval(rng)
+    elif how in ("setitem_pos", "var_setitem", "data_setitem"):
+        st["key"] = _mkey(rng, dims, sizes, "pos")
+        st["val"] = _mval(rng)
+        if how == "data_setitem" and st["val"]["kind"] == "dataarray":
+            st["val"]["kind"] = "array"
+    elif how == "data_mask":
+        st["thr"] = float(rng.randint(-2, 6))
+        st["val"] = _mval(rng, scalar_only=True)
+    elif how in ("data_out", "data_assign"):
+        st["k"] = float(rng.choice([1, 2, -3]))
+    elif how in ("data_out_other", "values_assign"):
+        st["seed"] = rng.randrange(10**6)
+        st["lazy_other"] = rng.random() < 0.5
+    elif how in AUG:
+        st["k"] = float(rng.choice([2, 3]))
+        if rng.random() < 0.4:
+            st["other"], st["seed"], st["lazy_other"] = True, rng.randrange(10**6), rng.random() < 0.5
+        if obj == "dataset" and rng.random() < 0.5:
+            st["via_item"] = True
+    return st
+
+
+def gen_mutate(rng, obj, kind, how=None):
+    sizes = {"x": rng.randint(4, 7), "y": rng.randint(4, 8)}
+    case = {"fam": "mutate", "obj": obj, "sizes": sizes, "chunks": {d: rchunk(rng, n, multi=True) for d, n in sizes.items()},
+            "data_seed": rng.randrange(10**6), "read": rng.choice(MUT_READS)}
+    if obj in ("dataset", "datatree") and rng.random() < 0.45:
+        case["alias"] = True
+    steps = []
+    if rng.random() < 0.25:
+        steps.append(gen_mut(rng, case, "o"))                 # the original already carries an assignment when copied
+    if rng.random() < 0.25:
+        steps.append({"do": "derive", "src": "o", "dst": "d", "how": rng.choice(MUT_DERIVES)})
+    steps.append({"do": "copy", "src": "o", "dst": "c", "kind": kind})
+    if rng.random() < 0.15:
+        steps.append({"do": "derive", "src": "c", "dst": "dc", "how": rng.choice(MUT_DERIVES)})
+    target = "c" if rng.random() < 0.65 else "o"
+    steps.append(gen_mut(rng, case, target, how))
+    r = rng.random()
+    if r < 0.3:
+        steps.append(gen_mut(rng, case, "o" if target == "c" else "c"))
+    elif r < 0.5:
+        src = rng.choice(["o", "c"])
+        steps.append({"do": "copy", "src": src, "dst": "c2", "kind": rng.choice(MUT_COPIES[obj])})
+        steps.append(gen_mut(rng, case, rng.choice(["c2", src])))
+    case["steps"] = steps
+    return case
+
+
+def gen_mutate_cases(rng, tier):
+    """every copy kind of every object kind in every run (each with a random in-place operation), and every in-place
+    operation of every object kind (each after a random copy kind)"""
+    out = []
+    reps = 3 if tier == "thorough" else 1
+    for _ in range(reps):
+        for obj in MUT_OBJS:
+            for kind in MUT_COPIES[obj]:
+                out.append(gen_mutate(rng, obj, kind))
+            for how in MUT_HOWS[obj]:
+                out.append(gen_mutate(rng, obj, rng.choice(MUT_COPIES[obj]), how))
+    return out
+
+
+def mutate_main(case):
+    """(copy kind, how, target) of the first mutation that follows the first copy"""
+    kind = next(st["kind"] for st in case["steps"] if st["do"] == "copy")
+    seen = False
+    for st in case["steps"]:
+        seen = seen or st["do"] == "copy"
+        if seen and st["do"] == "mut":
+            return kind, st["how"], "on-copy" if st["on"] != "o" else "on-original"
+    return kind, "none", "none"
+
+
 def gen_cases(rng, tier):
     thorough = tier == "thorough"
     cases = []
@@ -289,10 +506,13 @@ def gen_cases(rng, tier):
         for o in _table_names("ROUTES"):
             cases.append(dict(env_params(rng), fam="route", op=o))
         cases += gen_mgr(rng)
+    cases += gen_mutate_cases(rng, tier)
     return cases
 
 
 def key_of(case):
+    if case["fam"] == "mutate":
+        return f"{case['obj']}:{mutate_main(case)[0]}"
     return case.get("method") or case.get("func") or case.get("variant") or case.get("op")
 
 
@@ -301,6 +521,8 @@ def class_of(case):
         return ("xr", "dsload") + dsload_class(case)
     if case["fam"] == "mapblocks":
         return ("xr", "mapblocks") + mapblocks_class(case)
+    if case["fam"] == "mutate":
+        return ("xr", "mutate", case["obj"]) + mutate_main(case) + (case["read"], len(case["steps"]) > 2)
     nb = tuple(min(nblocks(case["chunks"][d], n), 3) for d, n in case["sizes"].items())
     return ("xr", case["fam"], key_of(case), nb, case["chunks"] == case.get("chunks_b"))
 
@@ -342,7 +564,7 @@ class Stream:
         ctx = self.ctx
         reg, stock = self.results("registered"), self.results("stock")
         self.pool.shutdown()
-        hist, entered, artefacts, refusals = {}, set(), {}, {}
+        hist, entered, artefacts, refusals, shared = {}, set(), {}, {}, {}
         suspects = []
         for case, r, s in zip(self.cases, reg, stock):
             ctx.count(class_of(case))
@@ -352,7 +574,10 @@ class Stream:
             if kind == "numpy-raises":
                 artefacts[f"{case['fam']}:{key_of(case)}"] = r["verdict"][:160]
             elif kind in ("mismatch", "compare-error"):
-                suspects.append((case, r, s))
+                if excused(case, r, s):
+                    shared[f"{case['fam']}:{key_of(case)}:{mutate_main(case)[1]}"] = r["verdict"][:100]
+                else:
+                    suspects.append((case, r, s))
             elif kind == "raises":
                 if s["verdict"] == "ok":
                     suspects.append((case, r, s))
@@ -379,8 +604,21 @@ class Stream:
             ctx.extra["xr_oracle_raises (harness artefacts, not counted)"] = artefacts
         if refusals:
             ctx.extra["xr_refusals_shared_with_stock_manager (not counted)"] = refusals
+        if shared:
+            # NumPy view / shared-memory semantics no chunked array has (shallow copies, in-place operators): the stock
+            # dask manager produces exactly the same values as the registered one
+            ctx.extra["xr_mutate_numpy_aliasing_shared_with_stock_manager (not counted)"] = dict(sorted(shared.items())[:40])
+            ctx.notes["xr_mutate_excused_same_as_stock"] = len(shared)
         mid = len(self.cases) // 3
         ctx.sample({"xr_case": self.cases[mid], "verdict": reg[mid]["verdict"], "manager_methods_entered": reg[mid]["calls"]})
+
+
+def excused(case, r, s):
+    """mutate family only: a difference from the NumPy-backed run is excused exactly when xarray's stock dask manager
+    yields the very same values (NumPy's shared-memory semantics of shallow copies / in-place operators, which no
+    chunked array has) -- never when the stock run agrees with NumPy or yields anything else"""
+    return (case["fam"] == "mutate" and r["verdict"].startswith("mismatch") and s["verdict"].startswith("mismatch")
+            and r.get("digest") is not None and r.get("digest") == s.get("digest"))
 
 
 def signature(case, verdict):
@@ -392,6 +630,11 @@ def judge_single(env, case):
     """→ verdict of the registered run if it is a failure of the property, else None (one fresh interpreter per mode)."""
     r = run_child("registered", [case], env)[0]
     v = r["verdict"]
+    if v.startswith("mismatch") and case["fam"] == "mutate":
+        s = run_child("stock", [case], env)[0]
+        if excused(case, r, s):
+            return None
+        return v + (" (the stock dask manager agrees with NumPy)" if s["verdict"] == "ok" else " (stock: " + s["verdict"][:60] + ")")
     if v.startswith("mismatch") or v.startswith("compare-error"):
         return v
     if v.startswith("raises"):
@@ -404,6 +647,22 @@ def judge_single(env, case):
 def shrink_candidates(case):
     """smaller variants of a dsload / mapblocks case: one variable dropped (references kept valid), no selection"""
     out = []
+    if case["fam"] == "mutate":
+        steps = case["steps"]
+        for i in range(len(steps) - 1, -1, -1):
+            gone = {steps[i]["dst"]} if steps[i]["do"] in ("copy", "derive") else set()
+            if "c" in gone and steps[i]["do"] == "copy" and steps[i]["dst"] == "c":
+                continue                                   # the first copy is what the case is about
+            keep = [st for j, st in enumerate(steps) if j != i and st.get("src") not in gone and st.get("on") not in gone]
+            if any(st["do"] == "mut" for st in keep):
+                out.append(dict(copy.deepcopy(case), steps=copy.deepcopy(keep)))
+        if case.get("read") != "values":
+            out.append(dict(copy.deepcopy(case), read="values"))
+        if case.get("alias") and not any(st.get("var") == "u2" for st in steps):
+            c = copy.deepcopy(case)
+            c.pop("alias")
+            out.append(c)
+        return out
     if "vars" not in case:
         return out
     if case.get("select"):
@@ -448,6 +707,10 @@ def report(env, case, verdict, minimise=False):
                 break
             rs = run_child("registered", cands, env)      # one fresh interpreter evaluates all candidates
             nxt = [c for c, r in zip(cands, rs) if r["verdict"].split(" ")[0] == v.split(" ")[0]]
+            if nxt and case["fam"] == "mutate":          # keep only candidates the stock manager does not share
+                ss = run_child("stock", nxt, env)
+                byid = {id(c): r for c, r in zip(cands, rs)}
+                nxt = [c for c, s2 in zip(nxt, ss) if not excused(c, byid[id(c)], s2)]
             if not nxt:
                 break
             small = nxt[0]
